@@ -71,17 +71,13 @@ class ReedSolomonCodeEncoder(SystematicLinearBlockCodeEncoder):
         # Create the generator matrix and parity submatrix
         generator_matrix = self._create_generator_matrix(dtype=dtype)
 
-        # Extract the parity submatrix
-        if information_set == "left":
-            parity_submatrix = generator_matrix[:, dimension:]
-        else:
-            parity_submatrix = generator_matrix[:, :redundancy]
+        # Extract the parity submatrix: the matrix above is [I_k | P] whatever the information set
+        parity_submatrix = generator_matrix[:, dimension:]
 
-        # Initialize the parent class with the parity submatrix
+        # Initialize the parent class with the parity submatrix. The parent places the identity on
+        # the information set and P on the parity set, and publishes that generator matrix (for
+        # 'left' it equals the matrix above), so that encoding, generator and check matrix agree.
         super().__init__(parity_submatrix=parity_submatrix, information_set=information_set, dtype=dtype, **kwargs)
-
-        # Store the full generator matrix as a buffer
-        self.register_buffer("generator_matrix", generator_matrix)
 
     def _compute_generator_polynomial(self, delta: int) -> BinaryPolynomial:
         """Compute the generator polynomial g(x) = (x-α)*(x-α²)*...*(x-α^(δ-1))."""
